@@ -114,6 +114,8 @@ type vMemAdapter struct {
 	MaxMessageResults int
 	// Emulate FOREIGN KEY checks on inserts.
 	EnforceFK bool
+	// YieldTopicDelete, when set, is called once at the start of the next TopicDelete, before it takes effect
+	YieldTopicDelete func(topic string)
 	// Clock used where MySQL adapter calls t.TimeNow(); nil means types.TimeNow.
 	NowFn func() time.Time
 
@@ -2011,6 +2013,11 @@ func (a *vMemAdapter) TopicShare(subs []*types.Subscription) error {
 // messages with their file links, tags, the topic with its file link. Soft: all subscriptions
 // get updatedat=deletedat=now, the topic gets updatedat=touchedat=stateat=now, state=deleted.
 func (a *vMemAdapter) TopicDelete(topic string, isChan, hard bool) error {
+	if y := a.YieldTopicDelete; y != nil {
+		// the statement is on its way to the database: other goroutines run meanwhile (set by a harness, once)
+		a.YieldTopicDelete = nil
+		y(topic)
+	}
 	if err := a.vmemEnter("TopicDelete"); err != nil {
 		return err
 	}
